@@ -2,10 +2,9 @@ package main
 
 import (
 	"fmt"
+	"strings"
 
 	"ssvharness/internal/common"
-
-	"github.com/database64128/shadowsocks-go/ss2022"
 )
 
 // Generator: a structurally random, VALID base configuration whose numbers sit on the accepted side
@@ -23,14 +22,16 @@ var (
 	okFS         = []uint64{0, 0, 1, 2, 255, 256, 257, 1024, 1 << 20}
 	hugeFS       = []uint64{1<<20 + 1, 1 << 32, 1 << 63, 1<<63 - 63, ^uint64(0) - 63, ^uint64(0) - 64, ^uint64(0)}
 	// boundaries of the ss2022 NAT timeout follow the code's replay window (the oracle keeps the documented 60 s)
-	win          = int64(ss2022.ReplayWindowDuration)
-	okNatSS      = []int64{0, win, win + sec, 300 * sec, 3600 * sec, win + 1}
-	okNatSecSS   = []int{0, int((win + sec - 1) / sec), int((win+sec-1)/sec) + 1, 300}
-	okNatAny     = []int64{0, 1 * sec, 59 * sec, 60 * sec, 61 * sec, 300 * sec}
-	padNames     = []string{"", "PadPlainDNS", "PadAll", "NoPadding"}
-	rejNames     = []string{"", "JustClose", "ForceReset", "CloseWriteDrain", "ReplyWithGibberish"}
-	groupPols    = []string{"round-robin", "random", "availability", "latency", "min-max-latency"}
-	batchModes   = []string{"", "no", "sendmmsg"}
+	win         = replayWindowNs()
+	okNatSS     = []int64{0, win, win, win + 1, win + sec, 300 * sec, 3600 * sec}
+	okNatSecSS  = []int{0, int((win + sec - 1) / sec), int((win + sec - 1) / sec), int((win+sec-1)/sec) + 1, 300}
+	badNatSS    = []int64{win - 1, win - 1, win - sec, win - sec, 59 * sec, 1, -sec, 30 * sec}
+	badNatSecSS = []int{int((win - 1) / sec), int((win - 1) / sec), int((win-sec)/sec) - 0, 59, 1, -1, 30}
+	okNatAny    = []int64{0, 1 * sec, 59 * sec, 60 * sec, 61 * sec, 300 * sec}
+	padNames    = []string{"", "PadPlainDNS", "PadAll", "NoPadding"}
+	rejNames    = []string{"", "JustClose", "ForceReset", "CloseWriteDrain", "ReplyWithGibberish"}
+	groupPols   = []string{"round-robin", "random", "availability", "latency", "min-max-latency"}
+	batchModes  = []string{"", "no", "sendmmsg"}
 )
 
 func isSS(p string) bool { return p == "2022-blake3-aes-128-gcm" || p == "2022-blake3-aes-256-gcm" }
@@ -304,8 +305,11 @@ func genBase(r *common.Rng) ConfigC {
 		default:
 			rt.Cl = "reject"
 		}
-		if r.Chance(1, 3) {
+		if r.Chance(1, 2) {
 			rt.FS = subset(r, srvNames, 2)
+		}
+		if r.Chance(1, 5) {
+			rt.FU = []string{common.Pick(r, []string{"Steve", "nobody", ""})}
 		}
 		if len(c.Router.PS) > 0 && r.Chance(1, 3) {
 			rt.FPS = subset(r, c.Router.PS, 2)
@@ -415,8 +419,8 @@ var faults = []fault{
 	}},
 	{"nat-ss", func(r *common.Rng, c *ConfigC) bool {
 		return withUL(r, c, ssServer,
-			func(u *ULc) { u.Nat = common.Pick(r, []int64{59 * sec, win - sec, win - 1, 1, -sec, 30 * sec}) },
-			func(s *ServerC) { s.NatSec = common.Pick(r, []int{59, int((win - 1) / sec), 1, -1, 30}) })
+			func(u *ULc) { u.Nat = common.Pick(r, badNatSS) },
+			func(s *ServerC) { s.NatSec = common.Pick(r, badNatSecSS) })
 	}},
 	{"nat-any-negative", func(r *common.Rng, c *ConfigC) bool {
 		return withUL(r, c, anyServer, func(u *ULc) { u.Nat = -sec }, func(s *ServerC) { s.NatSec = -1 })
@@ -811,6 +815,197 @@ var faults = []fault{
 		}
 		return true
 	}},
+}
+
+// ---------- names: empty, duplicate empty, differing in case / white space ----------
+
+var nameKinds = []string{"server", "server", "client", "group", "dns", "ds", "ps"}
+
+// namesOf returns pointers to the names of all entities of a kind.
+func namesOf(c *ConfigC, kind string) []*string {
+	var l []*string
+	switch kind {
+	case "server":
+		for i := range c.Servers {
+			l = append(l, &c.Servers[i].Name)
+		}
+	case "client":
+		for i := range c.Clients {
+			l = append(l, &c.Clients[i].Name)
+		}
+	case "group":
+		for i := range c.Groups {
+			l = append(l, &c.Groups[i].Name)
+		}
+	case "dns":
+		for i := range c.DNS {
+			l = append(l, &c.DNS[i].Name)
+		}
+	case "ds":
+		for i := range c.Router.DS {
+			l = append(l, &c.Router.DS[i])
+		}
+	case "ps":
+		for i := range c.Router.PS {
+			l = append(l, &c.Router.PS[i])
+		}
+	}
+	return l
+}
+
+func renameIn(l []string, old, new string) {
+	for i := range l {
+		if l[i] == old {
+			l[i] = new
+		}
+	}
+}
+
+// renameRefs rewrites every reference to an entity of the kind.
+func renameRefs(c *ConfigC, kind, old, new string) {
+	one := func(p *string) {
+		if *p == old {
+			*p = new
+		}
+	}
+	switch kind {
+	case "server":
+		for i := range c.Router.Routes {
+			renameIn(c.Router.Routes[i].FS, old, new)
+		}
+	case "client", "group":
+		for i := range c.Groups {
+			renameIn(c.Groups[i].TC, old, new)
+			renameIn(c.Groups[i].UC, old, new)
+		}
+		for i := range c.DNS {
+			if old != "" {
+				one(&c.DNS[i].TC)
+				one(&c.DNS[i].UC)
+			}
+		}
+		if old != "" {
+			one(&c.Router.DT)
+			one(&c.Router.DU)
+		}
+		for i := range c.Router.Routes {
+			one(&c.Router.Routes[i].Cl)
+		}
+	case "dns":
+		for i := range c.Router.Routes {
+			if old != "" {
+				one(&c.Router.Routes[i].Res)
+			}
+		}
+	case "ds":
+		for i := range c.Router.Routes {
+			renameIn(c.Router.Routes[i].TDS, old, new)
+		}
+	case "ps":
+		for i := range c.Router.Routes {
+			renameIn(c.Router.Routes[i].FPS, old, new)
+			renameIn(c.Router.Routes[i].TPS, old, new)
+			renameIn(c.Router.Routes[i].TMPS, old, new)
+		}
+	}
+}
+
+func oddVariant(r *common.Rng, n string) string {
+	switch r.Intn(4) {
+	case 0:
+		return strings.ToUpper(n)
+	case 1:
+		return n + " "
+	case 2:
+		return " " + n
+	default:
+		return strings.ToUpper(n[:1]) + n[1:]
+	}
+}
+
+func init() {
+	faults = append(faults,
+		// one entity gets the empty name; references follow it (still a valid configuration) or are left behind
+		fault{"empty-name", func(r *common.Rng, c *ConfigC) bool {
+			kind := common.Pick(r, nameKinds)
+			l := namesOf(c, kind)
+			if len(l) == 0 {
+				return false
+			}
+			p := l[r.Intn(len(l))]
+			old := *p
+			*p = ""
+			if r.Chance(2, 3) {
+				renameRefs(c, kind, old, "")
+			}
+			if kind == "server" && r.Bool() && len(c.Router.Routes) > 0 {
+				rt := &c.Router.Routes[r.Intn(len(c.Router.Routes))]
+				rt.FS = append(rt.FS, common.Pick(r, []string{"", c.Servers[0].Name}))
+			}
+			return true
+		}},
+		// two entities of one kind are unnamed
+		fault{"dup-empty-name", func(r *common.Rng, c *ConfigC) bool {
+			kind := common.Pick(r, nameKinds)
+			switch kind {
+			case "server":
+				if len(c.Servers) == 1 {
+					c.Servers = append(c.Servers, clone(ConfigC{Servers: c.Servers[:1]}).Servers[0])
+				}
+			case "ds":
+				if len(c.Router.DS) == 1 {
+					c.Router.DS = append(c.Router.DS, "dsx")
+				}
+			case "ps":
+				if len(c.Router.PS) == 1 {
+					c.Router.PS = append(c.Router.PS, "psx")
+				}
+			}
+			l := namesOf(c, kind)
+			if len(l) < 2 {
+				return false
+			}
+			i := r.Intn(len(l))
+			j := (i + 1 + r.Intn(len(l)-1)) % len(l)
+			for _, k := range []int{i, j} {
+				old := *l[k]
+				*l[k] = ""
+				if r.Bool() {
+					renameRefs(c, kind, old, "")
+				}
+			}
+			if kind == "server" && len(c.Router.Routes) > 0 && r.Chance(2, 3) {
+				rt := &c.Router.Routes[r.Intn(len(c.Router.Routes))]
+				if len(rt.FS) == 0 {
+					rt.FS = []string{common.Pick(r, []string{"", c.Servers[0].Name})}
+				}
+			}
+			return true
+		}},
+		// a name that differs from another one of its kind only in case or white space: distinct names
+		fault{"odd-name", func(r *common.Rng, c *ConfigC) bool {
+			kind := common.Pick(r, nameKinds)
+			l := namesOf(c, kind)
+			if len(l) == 0 {
+				return false
+			}
+			i := r.Intn(len(l))
+			src := *l[r.Intn(len(l))]
+			if src == "" {
+				return false
+			}
+			old := *l[i]
+			*l[i] = oddVariant(r, src)
+			switch r.Intn(3) {
+			case 0:
+				renameRefs(c, kind, old, *l[i]) // consistent
+			case 1: // references keep the old spelling (dangling unless another entity has it)
+			default: // a reference spelled like the variant of an existing name
+				renameRefs(c, kind, src, oddVariant(r, src))
+			}
+			return true
+		}},
+	)
 }
 
 type Case struct {
